@@ -25,6 +25,7 @@ EXPLANATION = (
     "normalised modulo the rank before it is compared with dimension indices, in every branch of its canonicalisation."
     " Added since: R06.3 follows the dtype of every Tensor/Number built by a ground eager rule for a class of ops back to find_domain; R06.6 a Slice's stop reaches construction clamped to dtype."
     ' Round 4: R06.7 (= R01.11) rules for parametrised ops mention their op instance; R06.8 constant sizes in the find_domain rule of the cast op only for dtypes with that many values; R06.9 (= R04.4) a distributed substitution reaches every operand that mentions a key.'
+    " Round 6: R06.10 batch/event boundary computed from the array's own tensor; R06.11 axis labels in the order of the tensor's own inputs; R06.12 slice-length expressions equal len(range(start, stop, step)) on a grid; R06.13 Number/Tensor branches of an eager_subs agree in data and dtype."
 )
 ASSUMPTIONS = [
     "values/shapes actually returned by op implementations on arrays are not decided (runtime)",
@@ -178,6 +179,14 @@ def run(prog: Program, col: Collector, tier: str, refs: Optional[Refs] = None, c
     # ---------------------------------------------------------------- R06.11
     col.rule("R06.11", "axis labels for a tensor's array are generated in the order of that tensor's own inputs", floor=2)
     _axis_labels_in_layout_order(prog, col, refs, cat)
+
+    # ---------------------------------------------------------------- R06.12
+    col.rule("R06.12", "a slice's length is computed as len(range(start, stop, step)) wherever a shape or size is derived from it", floor=3)
+    _slice_lengths(prog, col, refs, cat)
+
+    # ---------------------------------------------------------------- R06.13 (shared with C04: R04.5)
+    col.rule("R06.13", "the Number and the Tensor branch of an eager_subs compute the same data and declare the same dtype", floor=2)
+    c04._ground_index_siblings(prog, col, refs, cat)
 
     # ---------------------------------------------------------------- R06.5
     col.rule("R06.5", "dimension parameters are normalised modulo the rank in every branch before use as indices", floor=2)
@@ -826,3 +835,53 @@ def _axis_labels_in_layout_order(prog: Program, col: Collector, refs: Refs, cat:
                       f"the labels for the batch axes of `{T}` are generated by iterating `{norm(gen.iter)}`{' filtered by ' + norm(gen.ifs[0]) if gen.ifs else ''}, not `{T}.inputs`: "
                       f"the array of `{T}` is laid out in the order of its own inputs, so operands that list their inputs in different orders get their axes mislabelled", f.loc(j))
     col.cur.analysed["axis_label_sites"] = n
+
+
+# ---------------------------------------------------------------------- R06.12
+def _slice_lengths(prog: Program, col: Collector, refs: Refs, cat: Catalogue):
+    """Wherever the package turns (start, stop, step) into a number of elements - the shape entry in find_domain's getslice rule (two
+    mirror-image loops), the size of a Slice's input - the integer expression is extracted and evaluated by the analyser's own
+    evaluator for every 0 <= start, stop <= 7 and 1 <= step <= 4; it must equal len(range(start, stop, step))."""
+    from .c04 import _ieval, _NoEval
+    n = 0
+    sites = []
+    for f in prog.funcs.values():
+        if isinstance(f.node, ast.Lambda):
+            continue
+        # (a) `start, stop, step = parse_slice(...)` followed in the same block by an assignment of an expression over those three names
+        for blk_owner in ast.walk(f.node):
+            for fld in ("body", "orelse"):
+                blk = getattr(blk_owner, fld, None)
+                if not isinstance(blk, list):
+                    continue
+                for i, st in enumerate(blk):
+                    if isinstance(st, ast.Assign) and isinstance(st.targets[0], ast.Tuple) and len(st.targets[0].elts) == 3 and isinstance(st.value, ast.Call) \
+                            and (refs.resolve(st.value.func) or "").endswith("parse_slice") and all(isinstance(e, ast.Name) for e in st.targets[0].elts):
+                        names = [e.id for e in st.targets[0].elts]
+                        for nxt in blk[i + 1:i + 3]:
+                            if isinstance(nxt, ast.Assign) and {x.id for x in ast.walk(nxt.value) if isinstance(x, ast.Name)} - {"max", "min"} == set(names):
+                                sites.append((f, nxt, nxt.value, dict(zip(("start", "stop", "step"), names))))
+        # (b) a Slice constructor computing the size of its input from its own start / stop / step parameters
+        if f.cls is not None and f.name == "__init__" and {"start", "stop", "step"} <= set(f.params):
+            for st in walk_no_nested(f.node):
+                if isinstance(st, ast.Assign) and len(st.targets) == 1 and isinstance(st.targets[0], ast.Name) \
+                        and {x.id for x in ast.walk(st.value) if isinstance(x, ast.Name)} - {"max", "min"} == {"start", "stop", "step"}:
+                    sites.append((f, st, st.value, {"start": "start", "stop": "stop", "step": "step"}))
+    for f, st, expr, names in sites:
+        n += 1
+        bad = None
+        try:
+            for step in (1, 2, 3, 4):
+                for start in range(0, 8):
+                    for stop in range(0, 8):
+                        got = _ieval(expr, {names["start"]: start, names["stop"]: stop, names["step"]: step})
+                        want = len(range(start, stop, step))
+                        if got != want and bad is None:
+                            bad = (start, stop, step, got, want)
+        except _NoEval as ex:
+            col.unresolved(f"{f.fq}::{norm(st)[:60]}", f"not plain integer arithmetic ({ex})", f.loc(st))
+            continue
+        col.check(bad is None, f"{f.fq}::{norm(st)[:60]}", "equals len(range(start, stop, step)) on the grid (256 combinations)",
+                  (f"for start={bad[0]}, stop={bad[1]}, step={bad[2]} the expression gives {bad[3]} but the slice has {bad[4]} element(s): the declared shape / size "
+                   "differs from what the slice returns") if bad else "", f.loc(st))
+    col.cur.analysed["slice_length_sites"] = n
